@@ -431,7 +431,7 @@ class MemoryFieldArray:
         else:
             new_dataset = np.zeros(len(self._dataset) + len(part), dtype=self._dataset.dtype)
             new_dataset[:len(self._dataset)] = self._dataset
-            new_dataset[-len(part):] = part
+            new_dataset[len(self._dataset):] = part
             self._dataset = new_dataset
 
     def write(self, part):
